@@ -428,6 +428,13 @@ def d_nested_rail_cursor(ctx):
                 if isinstance(a, ast.Assign) and src(a.targets[0]) == "activated_rail" and isinstance(a.value, ast.Call):
                     saved = any(isinstance(b, (ast.If, ast.Assign, ast.Expr)) and b.lineno < a.lineno and "activated_rail" in src(b) and
                                 (("is not None" in src(b)) or ".append(activated_rail)" in src(b)) for b in i.body)
+                    # the push must not be restricted to ONE kind of enclosing rail: an output rail can block with a message that runs through the output rails too
+                    if saved:
+                        for b in i.body:
+                            if isinstance(b, ast.If) and b.lineno < a.lineno and "activated_rail" in src(b.test):
+                                kinds = {c_.value for c_ in ast.walk(b.test) if isinstance(c_, ast.Constant) and c_.value in ("input", "output")}
+                                if kinds and kinds != {"input", "output"}:
+                                    saved = False
                     starts.append((i, a, saved))
     ctx.floor("C16.d.stop", PLOG, "Start*Rail branches that move the cursor", len(starts), 2)
     for i, a, saved in starts:
